@@ -677,6 +677,16 @@ func c01(r *h.Result, rng *h.Rng, tier string, replay string) error {
 	var rep *scenario
 	if replay != "" {
 		rep = loadReplayScenario(replay)
+		if rep == nil {
+			if doc := loadReplayDoc(replay); doc != nil {
+				switch doc["stream"] {
+				case "handler-errtext":
+					return c01ReplayErrText(r, rng.Fork(), doc)
+				case "lock-probe":
+					return c02ReplayProbe(r, rng.Fork(), doc, "C01/")
+				}
+			}
+		}
 	}
 	nScen, maxOps, connFail, nRetry, nSeq := 300, 40, 16, 400, 40
 	if tier == "thorough" || tier == "search" {
@@ -706,7 +716,7 @@ func c01(r *h.Result, rng *h.Rng, tier string, replay string) error {
 	if err := c01Classify(r, rng.Fork(), nCls); err != nil {
 		return err
 	}
-	if err := c01HandlerErrText(r, rng.Fork(), nHE); err != nil {
+	if err := c01HandlerErrText(r, rng.Fork(), nHE, nil); err != nil {
 		return err
 	}
 	nPS, nPC := 300, 400
